@@ -13,7 +13,7 @@ func main() {
 			"single and multiple assignment incl. swaps, all loop kinds, break, goto shapes) printed one statement per line; each is run on the real interpreter " +
 			"and its emit trace/results/error compared in Coq with the reference evaluator; non-trivial = at least 5 emitted rows or an error outcome; distinct by Gallina term",
 		Modes:     []luaprop.Mode{{Name: "core", Features: luagen.CoreFeatures(), Weight: 5}, {Name: "core-bigk", Features: bigk(luagen.CoreFeatures()), Weight: 1}},
-		NQuick:    220,
+		NQuick:    400,
 		NThorough: 6000,
 		Corpus:    corpus,
 	})
